@@ -35,6 +35,9 @@ def run(ctx, build):
     # singleton sides (exactly one dimension of size 1): the N-D array may come with that side squeezed out
     lays += [gen.Layout([1], [0], [2, 3], [1, 0]), gen.Layout([3, 2], [1, 0], [1], [0]), gen.Layout([1], [0], [4], [0]),
              gen.Layout([2, 2], [0, 1], [1], [0])]
+    # designed, seed-independent: as many positions as position dimensions (a SQUARE index matrix, size-1 dimensions kept)
+    lays += [gen.Layout([2, 1], [0, 1], [3], [0]), gen.Layout([2, 1], [1, 0], [2, 2], [0, 1]), gen.Layout([1, 2], [0, 1], [3], [0]),
+             gen.Layout([1, 2], [1, 0], [2], [0]), gen.Layout([3, 1, 1], [0, 1, 2], [2], [0]), gen.Layout([1, 3, 1], [1, 0, 2], [2, 2], [1, 0])]
     cases, meta = [], []
     hist = {'layouts': 0, 'round_trips': 0, 'one_sided': 0, 'incompatible': 0, 'squeezed': 0, 'anc_kinds': {}, 'nd_kinds': {}, 'raised': {}}
     distinct = set()
@@ -204,6 +207,18 @@ def run(ctx, build):
                             violate('singleton_side_squeezed', 'round_trip_not_identity', str(m), m)
         if len(out.samples) < 4 and lay.nontrivial():
             out.samples.append({'layout': lay.describe(), 'nd_shape': list(exp.shape)})
+    # ---- designed (exact oracle only): index matrices of a narrow integer type with a dimension as long as the type's range
+    hist['narrow_typed_index_matrices'] = 0
+    for dt, n_long in ((np.uint8, 256), (np.int8, 128), (np.uint16, 65536)):
+        lay = gen.Layout([n_long], [0], [2, 3], [1, 0])
+        exp = gc.expected_nd(lay)
+        m = {'layout': lay.describe(), 'case': 'both matrices', 'index_dtype': np.dtype(dt).name}
+        obs = call(exp, lay.pos_inds().astype(dt), lay.spec_inds().astype(dt), 'numpy', m)
+        hist['narrow_typed_index_matrices'] += 1
+        if obs[0] != 0:
+            violate('narrow_typed_index_matrices', 'round_trip_raises', str(m), m)
+        elif (obs[1], obs[2]) != (lay.N, lay.M) or obs[3] != [int(x) for x in lay.main_ids().ravel()]:
+            violate('narrow_typed_index_matrices', 'round_trip_not_identity', str(m), m)
     bad, err = common.coq_eval_cases(ctx, HEADER, cases, 'check10', case_type='case10', per_file=150)
     out.corr_error = err
     out.disagreements = [meta[i] for i in bad]
